@@ -43,7 +43,8 @@ Step(st, e) ==
     [] e.ev = "call" ->
          IF st.expect # <<>>
          THEN IF st.expect[1].k = "call" /\ st.expect[1].a = e.a /\ st.expect[1].pk = e.pk /\ e.t = st.last
-              THEN [st EXCEPT !.expect = Tail(@)] ELSE Fail(st, "C12_TrainAssembly")
+              THEN [st EXCEPT !.expect = Tail(@)]
+              ELSE IF CHasDup(e.pk) THEN Fail(st, "C16_DuplicateEffect") ELSE Fail(st, "C12_TrainAssembly")
          ELSE IF st.dup /\ e.t = st.last THEN Fail(st, "C16_DuplicateEffect")
          ELSE IF e.a \notin AddrSet THEN Fail(st, "C12_TrainAssembly")
          ELSE LET c == CTimerCall(st.train, st.tnew, st.tany, e.a, e.pk, e.t)
